@@ -315,6 +315,14 @@ def lean_result_split(types, v):
 
 def validate(prop, rng, n_per_fn, res):
     """runs the validation for the translated functions owned by `prop`; divergences go to `res`"""
+    owned = {sp["lean"] for sp in trspecs.SPECS if prop in sp["props"]}
+    if prop in ("C01", "C02", "C04") and {"find_dependencies", "update_recursive"} <= owned and os.path.exists(TRDRIVER) \
+            and all(common.TRANSLATION_STATUS.get(f, {}).get("translated") for f in
+                    ("find_dependencies", "update_recursive", "DelayFixed_with_delay", "DelayToPull_with_delay", "DelayToPush_with_delay")):
+        validate_sched_heap(rng, max(6, n_per_fn // 3), res)
+    if prop == "C19" and os.path.exists(TRDRIVER) and all(common.TRANSLATION_STATUS.get(f, {}).get("translated") for f in
+                                                         ("check_input_connected", "check_dead_links", "check_branching")):
+        validate_topology_heap(rng, max(20, n_per_fn), res)
     specs = [sp for sp in trspecs.SPECS if prop in sp["props"] and supported(sp)
              and common.TRANSLATION_STATUS.get(sp["lean"], {}).get("translated")]
     if not specs or not os.path.exists(TRDRIVER):
@@ -363,3 +371,227 @@ def validate(prop, rng, n_per_fn, res):
             st["mismatch"] += 1
             res.diverge("translation/" + sp["lean"], {"fn": sp["lean"], "args": rq["args"]}, real, lean)
     res.extra["translation_validation"] = stats
+
+
+# ---------------------------------------------------------------------------------------------
+# object graphs: the translated driver functions against the real ones on live compositions
+# ---------------------------------------------------------------------------------------------
+class _Selected(Exception):
+    def __init__(self, comp):
+        super().__init__("selected")
+        self.comp = comp
+
+
+def us_of(t):
+    return 0 if t is None else int((t - EPOCH) / US)
+
+
+def extract_heap(objs):
+    """attribute tables of a list of live objects (components, slots, adapters), indexed by position in `objs`"""
+    from finam import interfaces as itf
+
+    ix = {id(o): i for i, o in enumerate(objs)}
+    gid = lambda o: ix.get(id(o), 0)  # noqa
+    is_ = lambda cls: [isinstance(o, cls) for o in objs]  # noqa
+    attr = lambda name: [bool(getattr(o, name, False)) if not isinstance(o, itf.IComponent) else False for o in objs]  # noqa
+
+    def delay(o):
+        if isinstance(o, ad.DelayFixed):
+            return ["dfix", int(o.delay / US), us_of(o.initial_time)]
+        if isinstance(o, ad.DelayToPull):
+            return ["dpull", [us_of(t) for t in o._pulls], int(o.additional_delay / US), us_of(o.initial_time)]
+        if isinstance(o, ad.DelayToPush):
+            return ["dpush", None if o.push_time is None else us_of(o.push_time), us_of(o.initial_time)]
+        return ["id"]
+
+    def safe_time(o):
+        try:
+            return us_of(o.time)
+        except Exception:  # noqa
+            return 0
+
+    def safe_next(o):
+        try:
+            return us_of(o.next_time) if isinstance(o, itf.ITimeComponent) else 0
+        except Exception:  # noqa
+            return 0
+
+    return {
+        "isInput": is_(itf.IInput), "isOutput": is_(itf.IOutput), "isAdapter": is_(itf.IAdapter),
+        "isNoDep": is_(itf.NoDependencyAdapter), "isDelay": is_(itf.ITimeDelayAdapter), "isNoBranch": is_(itf.NoBranchAdapter),
+        "isTimeComp": is_(itf.ITimeComponent), "needsPush": attr("needs_push"), "needsPull": attr("needs_pull"),
+        "isStatic": attr("is_static"),
+        "finished": [isinstance(o, itf.IComponent) and o.status == fm.ComponentStatus.FINISHED for o in objs],
+        "hasSource": [isinstance(o, itf.IInput) and o.source is not None for o in objs],
+        "source": [gid(o.source) if isinstance(o, itf.IInput) and o.source is not None else 0 for o in objs],
+        "time": [safe_time(o) if not isinstance(o, itf.IInput) or isinstance(o, itf.IOutput) else 0 for o in objs],
+        "nextTime": [safe_next(o) for o in objs],
+        "delay": [delay(o) for o in objs],
+        "owner": [0] * len(objs),
+        "inputs": [[gid(i) for i in o.inputs.values()] if isinstance(o, itf.IComponent) else [] for o in objs],
+        "outputs": [[gid(i) for i in o.outputs.values()] if isinstance(o, itf.IComponent) else [] for o in objs],
+        "targets": [[gid(t) for t in o.targets] if isinstance(o, itf.IOutput) else [] for o in objs],
+        "size": len(objs),
+    }, ix
+
+
+def _trdriver(reqs):
+    data = "\n".join(json.dumps(r, separators=(",", ":")) for r in reqs) + "\n"
+    p = subprocess.run([TRDRIVER], input=data, capture_output=True, text=True, timeout=600)
+    lines = p.stdout.splitlines()
+    if p.returncode != 0 or len(lines) != len(reqs):
+        raise common.MachineryError(f"trdriver failed: {p.stderr[-500:]} ({len(lines)} answers for {len(reqs)} requests)")
+    return [json.loads(ln) for ln in lines]
+
+
+def validate_sched_heap(rng, n_specs, res, max_steps=10):
+    """live compositions (the scheduler harness of C01-C04): before every update of a hand-driven run loop the real
+    `_find_dependencies` of every component and the real `_update_recursive` of the least advanced one are compared
+    with the translated definitions evaluated on the attribute tables extracted from the live objects"""
+    from finam import schedule as sched
+    from .engines import sched_common as sc
+    from .engines import c20
+    from .schedlib import build, TH
+
+    stats = {"compositions": 0, "find_dependencies": 0, "update_recursive": 0, "mismatch": 0, "errors": {}}
+    for _ in range(n_specs):
+        r = rng.random()
+        spec = (sc.gen_dag(rng, pull_comps=True) if r < 0.35 else sc.gen_ring(rng, resolved=rng.random() < 0.6) if r < 0.7
+                else c20.gen_pull(rng) if r < 0.85 else sc.gen_mixed_delay_chain(rng))
+        try:
+            comp, comps, adapters, trace, _fin, link_objs = build(spec)
+            times = [c["start"] for c in spec["comps"] if c["kind"] == "time"]
+            comp.connect(TH(min(times)) if times else None)
+        except Exception:  # noqa  (connect-phase failures are the business of C04 / C06)
+            continue
+        stats["compositions"] += 1
+        objs = list(comps)
+        for c in comps:
+            objs += list(c.outputs.values()) + list(c.inputs.values())
+        objs += adapters
+        tcs = [c for c in comps if isinstance(c, fm.TimeComponent)]
+        for _step in range(max_steps):
+            heap, ix = extract_heap(objs)
+            for out, owner in comp._output_owners.items():
+                heap["owner"][ix[id(out)]] = ix[id(owner)]
+            reqs, expect = [], []
+            for c in comps:
+                tgt = c.next_time if isinstance(c, fm.TimeComponent) else min(x.next_time for x in tcs)
+                try:
+                    d = sched._find_dependencies(c, comp._output_owners, tgt)
+                    want = {"ok": [[ix[id(o)], [us_of(v[0]), bool(v[1])]] for o, v in d.items()]}
+                except Exception as e:  # noqa
+                    want = {"err": err_class(e)}
+                reqs.append({"fn": "find_dependencies", "args": [heap, ix[id(c)], us_of(tgt)]})
+                expect.append(("find_dependencies", want))
+            sel = sorted(tcs, key=lambda m: m.time)[0]
+            reqs.append({"fn": "update_recursive", "args": [heap, len(comps) + 1, ix[id(sel)]]})
+            # the real call, with `update()` of every component replaced by a marker: the decision is observed, the
+            # update itself (whose pulls may fail for reasons that are C01's business) is performed afterwards
+            chosen = None
+            originals = {}
+            for c in comps:
+                originals[id(c)] = c.__dict__.get("update")
+                c.update = (lambda c=c: (_ for _ in ()).throw(_Selected(c)))
+            try:
+                comp._update_recursive(sel)
+                want = {"err": "other"}      # unreachable: a time component was handed in
+            except _Selected as e:
+                chosen = e.comp
+                want = {"ok": ix[id(chosen)]}
+            except Exception as e:  # noqa
+                want = {"err": err_class(e)}
+            finally:
+                for c in comps:
+                    if originals[id(c)] is None:
+                        del c.__dict__["update"]
+                    else:
+                        c.update = originals[id(c)]
+            expect.append(("update_recursive", want))
+            answers = _trdriver(reqs)
+            for (fn, want), got, rq in zip(expect, answers, reqs):
+                stats[fn] += 1
+                if "err" in want or "err" in got:
+                    agree = want.get("err") == got.get("err")
+                    if "err" in want:
+                        stats["errors"][want["err"]] = stats["errors"].get(want["err"], 0) + 1
+                elif fn == "find_dependencies":
+                    agree = want["ok"] == got["ok"]
+                else:
+                    agree = got["ok"][0] == want["ok"]   # (selected component, chain dict): the component
+                if not agree:
+                    stats["mismatch"] += 1
+                    res.diverge("translation/" + fn, {"spec": spec, "fn": fn, "comp": rq["args"][-1] if fn == "update_recursive" else rq["args"][1]},
+                                want, got)
+            if chosen is None:
+                break
+            try:
+                chosen.update()
+            except Exception:  # noqa  (a failing pull inside the update: C01's recorded findings)
+                break
+        try:
+            for a in adapters:
+                a.finalize()
+        except Exception:  # noqa
+            pass
+    res.extra["translation_validation_object_graphs"] = stats
+
+
+def validate_topology_heap(rng, n_cases, res):
+    """live coupling forests (the harness of C19): the real `_check_input_connected`, `_check_dead_links` and
+    `_check_branching` of every input / output of every component against the translated definitions evaluated on the
+    attribute tables extracted from the live objects"""
+    from finam import schedule as sched
+    from .engines import c19
+
+    stats = {"forests": 0, "check_input_connected": 0, "check_dead_links": 0, "check_branching": 0, "mismatch": 0, "errors": {}}
+    for _ in range(n_cases):
+        case = c19.gen_case(rng)
+        try:
+            composition, comps, objs_by_pos, _created, _log = c19.build_objects(case)
+        except Exception:  # noqa
+            continue
+        stats["forests"] += 1
+        objs = list(comps)
+        seen = {id(o) for o in objs}
+        for c in comps:
+            for o in list(c.outputs.values()) + list(c.inputs.values()):
+                if id(o) not in seen:
+                    seen.add(id(o))
+                    objs.append(o)
+        for o in objs_by_pos.values():
+            if id(o) not in seen:
+                seen.add(id(o))
+                objs.append(o)
+        heap, ix = extract_heap(objs)
+        reqs, expect = [], []
+
+        def real(f, *a):
+            try:
+                f(*a)
+                return {"ok": None}
+            except Exception as e:  # noqa
+                return {"err": err_class(e)}
+
+        for c in comps:
+            for inp in c.inputs.values():
+                connected = real(sched._check_input_connected, c, inp)
+                reqs.append({"fn": "check_input_connected", "args": [heap, ix[id(inp)]]})
+                expect.append(("check_input_connected", connected))
+                if "ok" in connected:   # `_validate_composition` only reaches the dead-link scan for connected inputs
+                    reqs.append({"fn": "check_dead_links", "args": [heap, ix[id(inp)]]})
+                    expect.append(("check_dead_links", real(sched._check_dead_links, c, inp)))
+            for out in c.outputs.values():
+                reqs.append({"fn": "check_branching", "args": [heap, ix[id(out)]]})
+                expect.append(("check_branching", real(sched._check_branching, c, out)))
+        if not reqs:
+            continue
+        for (fn, want), got in zip(expect, _trdriver(reqs)):
+            stats[fn] += 1
+            if "err" in want:
+                stats["errors"][want["err"]] = stats["errors"].get(want["err"], 0) + 1
+            agree = ("err" in want) == ("err" in got) and want.get("err") == got.get("err")
+            if not agree:
+                stats["mismatch"] += 1
+                res.diverge("translation/" + fn, {"case": case, "fn": fn}, want, got)
+    res.extra["translation_validation_object_graphs"] = stats
